@@ -154,6 +154,13 @@ def load_unit(name, path, meta=None, defines=(), _align=True):
     extra_inc = []
     unknown_headers = []
     for _ in range(6):
+        if path.endswith(".cl"):
+            # OpenCL C configuration: clang's own OpenCL front end with its builtin declarations; __OPENCL_VERSION__ is what
+            # a device compiler defines and what kernel_header.c tests
+            cmd = ["clang", "-x", "cl", "-cl-std=CL1.2", "-D__OPENCL_VERSION__=120", "-Xclang", "-finclude-default-header",
+                   "-fsyntax-only", "-Wno-everything", "-Xclang", "-ast-dump=json"] + ["-D%s" % d for d in defines] + [path]
+            proc = subprocess.run(cmd, capture_output=True)
+            break
         cmd = ["clang", "-std=c99", "-nostdinc", "-I", STUBS] + extra_inc + ["-fsyntax-only", "-Wno-everything",
                "-Xclang", "-ast-dump=json"] + ["-D%s" % d for d in defines] + [path]
         proc = subprocess.run(cmd, capture_output=True)
@@ -198,6 +205,8 @@ def walk(node):
 
 def _worker(args):
     func_path, name, path, meta, extra = args
+    if path.endswith(".cl"):
+        meta = dict(meta, config="opencl", name_override=name.split("@")[0])
     modname, fname = func_path.split(":")
     try:
         mod = importlib.import_module(modname)
@@ -210,7 +219,7 @@ def _worker(args):
         return name, None, traceback.format_exc()
 
 
-def map_units(func_path, names=None, extra=None, include_witness=False):
+def map_units(func_path, names=None, extra=None, include_witness=False, config="dll"):
     """Run `module:function(unit, extra)` on every (selected) generated unit in parallel.
     Returns {unit name: result}; raises AnalysisError if any worker failed."""
     idx = generate_units()
@@ -220,7 +229,12 @@ def map_units(func_path, names=None, extra=None, include_witness=False):
             continue
         if names is not None and name not in names:
             continue
-        jobs.append((func_path, name, meta["unit"], meta, extra))
+        if config == "opencl":
+            if not meta.get("cl_unit"):
+                raise AnalysisError("generator produced no OpenCL source for %s" % name)
+            jobs.append((func_path, name + "@opencl", meta["cl_unit"], meta, extra))
+        else:
+            jobs.append((func_path, name, meta["unit"], meta, extra))
     if include_witness and "witness" in idx:
         jobs.append((func_path, "_reparam_witness", idx["witness"]["unit"], idx["witness"], extra))
     results = {}
